@@ -410,3 +410,11 @@ def run(ck):
     ck.floor("C05-PAD", 5)
     check_trunc(ck, prog)
     check_flags_and_width(ck, prog)
+    # Stream Padding / footer positions counted across calls (a damaged stream must be rejected however it is sliced)
+    from . import reinit
+    ck.rule("C05-ACCUM", "counters that a decoder state tests (Stream Padding alignment, positions) accumulate across calls")
+    reinit.check_accumulators(ck, prog, "C05-ACCUM", files={"stream_decoder.c", "stream_decoder_mt.c", "lzip_decoder.c",
+                                                            "alone_decoder.c", "block_decoder.c", "index_decoder.c"})
+    ck.rule("C05-INITCONS", "a re-used container decoder starts like a fresh one")
+    reinit.check_init_consistency(ck, prog, "C05-INITCONS", files={"stream_decoder.c", "lzip_decoder.c", "alone_decoder.c",
+                                                                   "block_decoder.c", "index_decoder.c", "auto_decoder.c"})
